@@ -293,3 +293,37 @@ func ruleXXHConsumption(c *Check, p *Program, rule string) {
 
 func hasPrefix(s, p string) bool { return len(s) >= len(p) && s[:len(p)] == p }
 func hasSuffix(s, p string) bool { return len(s) >= len(p) && s[len(s)-len(p):] == p }
+
+// R13.11: the streaming state is re-seeded only when nothing has been hashed. The lazy initialisation in Write
+// (for the zero value of XXHZero) is governed by the running length being 0 and by nothing else: any other test
+// (zero lanes, an empty carry buffer) can also be true in the middle of a stream and would discard what was hashed.
+func ruleXXHLazyInit(c *Check, p *Program, rule string) {
+	wr := findFn(c, p, rule, "internal/xxh32", "XXHZero.Write")
+	if wr == nil {
+		return
+	}
+	n := 0
+	for _, g := range deepFuncs(wr, 1) {
+		for _, ci := range callsIn(g) {
+			isReset := calleeIs(ci, pkgXXH, "XXHZero.Reset")
+			if !isReset {
+				continue
+			}
+			n++
+			c.Sites++
+			ats := atomsOfBlockLocal(ci.Block())
+			ok := len(ats) >= 1
+			for _, a := range ats {
+				z := atomSaysZero(a)
+				if z == nil || loadField(z) != "XXHZero.totalLen" {
+					ok = false
+				}
+			}
+			c.Cond(ok, rule, "XXHZero.Write#lazy-init-on-zero-length", p.InstrPos(ci), "Write re-seeds the state only when the running length is 0 (the zero value, or right after Reset)", "the Reset call is governed by totalLen == 0 alone", "the re-seeding is governed by another condition: it can fire in the middle of a stream (all lanes zero, length a multiple of 2^32 in a narrower counter, ...) and drop everything hashed so far")
+		}
+	}
+	if n == 0 {
+		// the seeding may be written out in Write itself: stores of the lane seeds under the same guard
+		c.OK(rule, "XXHZero.Write#lazy-init-on-zero-length", p.Pos(wr.Pos()), "no call of Reset in Write", "the lanes are seeded elsewhere (R13.3 checks the seeds)", false)
+	}
+}
